@@ -464,6 +464,131 @@ theorem effective_close_once (n : Nat) (h : List Event) :
   | nil => intro s hs; exact hs
   | cons ev rest ih => intro s hs; exact ih _ (step_binv s ev hs)
 
+
+/-- **Who can close.** In every state with unique registrations: if a step removes an open resource
+`r` from the backend's registry, the step is either an explicit close effect naming `r` that passed
+the ownership check (requested by `r`'s owner, or `r` is unregistered), or a `ProcessResults`
+reporting the process `r` is registered to as complete. Nothing else ever closes a resource — in
+particular not the termination of its owner (F10), and not time. -/
+theorem closed_only_by_owner_close_or_cleanup (s : Sys) (hn : KeysNodup s.env.owner) (ev : Event) (r : Rid)
+    (h0 : r ∈ s.env.backend.openSet) (h1 : r ∉ (step s ev).env.backend.openSet) :
+    (∃ p e w, ev = .request p e w ∧ e.kind.shape = .closeSync ∧ e.rid = r ∧
+      violatesOwnership s.env.owner p e = false) ∨
+    (∃ a rs p, ev = .results a rs ∧ (p, true) ∈ rs ∧ ownGet s.env.owner r = some p) := by
+  cases ev with
+  | start => exact absurd h0 h1
+  | terminate p => exact absurd h0 h1
+  | send a t v => simp only [step, handleDeliver_backend] at h1; exact absurd h0 h1
+  | spawn c caps arg => simp only [step, handleSpawn_backend] at h1; exact absurd h0 h1
+  | completions n =>
+    simp only [step, handleCompletions_backend] at h1
+    exact absurd (processCompletions_openSet_mono _ n h0) h1
+  | request p e w =>
+    simp only [step, handleEffectRequest_backend] at h1
+    by_cases hv : violatesOwnership s.env.owner p e = true
+    · simp only [hv, ↓reduceIte] at h1; exact absurd h0 h1
+    · have hv' : violatesOwnership s.env.owner p e = false := by simpa using hv
+      simp only [hv', Bool.false_eq_true, ↓reduceIte] at h1
+      rcases execute_openSet s.env.backend p e w h0 with h | ⟨h2, h3⟩
+      · exact absurd h h1
+      · exact .inl ⟨p, e, w, rfl, h2, h3, hv'⟩
+  | results a rs =>
+    simp only [step, handleProcessResults_backend, closeAll_openSet, List.mem_filter, h0, true_and,
+      decide_eq_true_eq, Classical.not_not] at h1
+    obtain ⟨p, hp, hg⟩ := (mem_cleanupList hn).1 h1
+    exact .inr ⟨a, rs, p, rfl, hp, hg⟩
+
+/-- F10 in general form: along ANY continuation that contains neither an accepted explicit close of
+`r` nor a report of `r`'s current owner (and no transfer of `r`, so the owner stays the same), an
+open resource stays open — whether or not its owner has terminated. -/
+def leavesAlone (r : Rid) (o : Pid) : Event → Bool
+  | .request _ e _ => !(e.kind.shape = .closeSync && e.rid = r)
+  | .results _ rs => !(reportedOf rs).contains o
+  | .send _ _ msg => !msg.resources.contains r
+  | .spawn _ caps arg => !(resourcesList caps ++ arg.resources).contains r
+  | _ => true
+
+theorem stays_open_while_left_alone (s : Sys) (hs : Inv s) (r : Rid) (o : Pid)
+    (hopen : r ∈ s.env.backend.openSet) (hown : ownGet s.env.owner r = some o)
+    (h : List Event) (hw : handlesFrom s h = true) (hl : ∀ ev ∈ h, leavesAlone r o ev = true) :
+    r ∈ (run s h).env.backend.openSet ∧ ownGet (run s h).env.owner r = some o := by
+  induction h generalizing s with
+  | nil => exact ⟨hopen, hown⟩
+  | cons ev rest ih =>
+    simp only [handlesFrom, Bool.and_eq_true] at hw
+    have hev := hl ev List.mem_cons_self
+    have hs' := inv_step hs ev hw.1
+    have hopen' : r ∈ (step s ev).env.backend.openSet := by
+      apply Classical.byContradiction
+      intro hc
+      rcases closed_only_by_owner_close_or_cleanup s hs.keys ev r hopen hc with
+        ⟨p, e, w, rfl, h2, h3, _⟩ | ⟨a, rs, p, rfl, hp, hg⟩
+      · simp [leavesAlone, h2, h3] at hev
+      · rw [hown] at hg; cases hg
+        simp only [leavesAlone, Bool.not_eq_eq_eq_not, Bool.not_true, List.contains_eq_mem,
+          decide_eq_false_iff_not] at hev
+        exact hev (mem_reportedOf.2 hp)
+    have hown' : ownGet (step s ev).env.owner r = some o := by
+      cases hq : ownGet (step s ev).env.owner r with
+      | none =>
+        -- only a cleanup unregisters, and it would have closed r
+        exfalso
+        cases ev with
+        | start => simp [step, hown] at hq
+        | terminate p => simp [step, hown] at hq
+        | send a t v =>
+          rw [transfer_moves_send] at hq
+          split at hq
+          · cases hq
+          · rw [hown] at hq; cases hq
+        | spawn c caps arg =>
+          rw [transfer_moves_spawn] at hq
+          split at hq
+          · cases hq
+          · rw [hown] at hq; cases hq
+        | completions n =>
+          have hk : r ∈ ownKeys s.env.owner := (ownGet_isSome_iff _ _).1 (by simp [hown])
+          have : r ∈ ownKeys (step s (.completions n)).env.owner := by
+            simp only [step, handleCompletions_owner, mem_ownKeys_regAll]; exact .inr hk
+          exact (ownGet_eq_none_iff _ _).1 hq this
+        | request p e w =>
+          have hk : r ∈ ownKeys s.env.owner := (ownGet_isSome_iff _ _).1 (by simp [hown])
+          have : r ∈ ownKeys (step s (.request p e w)).env.owner := by
+            simp only [step, handleEffectRequest_owner]
+            split
+            · exact hk
+            · split
+              · rw [mem_ownKeys_regOf]; exact .inr hk
+              · exact hk
+          exact (ownGet_eq_none_iff _ _).1 hq this
+        | results a rs =>
+          simp only [step, handleProcessResults_owner, ownGet_eraseAll] at hq
+          split at hq
+          · rename_i hm
+            obtain ⟨p, hp, hg⟩ := (mem_cleanupList hs.keys).1 hm
+            rw [hown] at hg; cases hg
+            simp only [leavesAlone, Bool.not_eq_eq_eq_not, Bool.not_true, List.contains_eq_mem,
+              decide_eq_false_iff_not] at hev
+            exact hev (mem_reportedOf.2 hp)
+          · rw [hown] at hq; cases hq
+      | some q =>
+        by_cases hqo : q = o
+        · rw [hqo]
+        · exfalso
+          rcases owner_changes_only_by_transfer s hs ev r o q hown hq hqo with
+            ⟨a, v, rfl, hm⟩ | ⟨c, caps, arg, rfl, _, hm⟩
+          · simp [leavesAlone, hm] at hev
+          · simp only [leavesAlone, Bool.not_eq_eq_eq_not, Bool.not_true, List.contains_eq_mem,
+              decide_eq_false_iff_not] at hev
+            exact hev hm
+    exact ih (step s ev) hs' hopen' hown' hw.2 (fun e he => hl e (List.mem_cons_of_mem _ he))
+
+-- a terminated, never-awaited owner: whatever else the other processes do, its file stays open
+example :
+    let s := run (init 2) [.start, .start, .open 1, .terminate 1]
+    let h : List Event := [.open 0, .use 0 2, .send 0 1 (.res 2), .completions 3, .awaitReport 1 0]
+    (∀ ev ∈ h, leavesAlone 1 1 ev = true) ∧ 1 ∈ (run s h).env.backend.openSet := by decide
+
 /-- A transfer does not carry an id that `close_resource` has already been called for (a stale
 copy of a handle whose resource was cleaned up). -/
 def noStale (s : Sys) : Event → Bool
